@@ -316,6 +316,12 @@ QXmppTask<QXmppMamManager::RetrieveResult> QXmppMamManager::retrieveMessages(con
             state.runningDecryptionJobs = state.messages.size();
 
             const auto size = state.messages.size();
+            // nothing to decrypt: no decryption job will finish the request
+            if (size == 0) {
+                state.finish();
+                d->ongoingRequests.erase(itr);
+                return;
+            }
             for (qsizetype i = 0; i < size; i++) {
                 const auto &message = state.messages.at(i);
 
